@@ -20,8 +20,8 @@ i) flow accounting cannot kill a stream: in FlowMetrics no *unsigned* atomic cou
 f) run_worker_loop awaits on_store inline (no spawn) before the next recv.
 Not decided: the window between publication and release of the passive copy (cross-task atomicity), aggregates not being de-duplicated.
 """
-FLOOR = 14
-REQUIRED = ["C03.a", "C03.b1", "C03.b2", "C03.b3", "C03.c", "C03.d", "C03.e1", "C03.e2", "C03.f", "C03.g", "C03.h", "C03.i", "C03.j"]
+FLOOR = 15
+REQUIRED = ["C03.a", "C03.b1", "C03.b2", "C03.b3", "C03.c", "C03.d", "C03.e1", "C03.e2", "C03.f", "C03.g", "C03.h", "C03.i", "C03.j", "C03.k"]
 FLUSH_TASK = "engine::core::write::flush_worker::FlushWorker::run::{closure#0}::{closure#0}"
 
 
@@ -127,6 +127,31 @@ def run(ctx):
                         bad.append(("guard-released-before-publish", "in-flight guard released before publication", None))
         return bad
     ctx.run("C03.c", "K1/K3/K5", "flush task", "publish (verified) before releasing the in-memory copy; in-flight guard spans publication", c)
+
+    def k_(inst):
+        """`exactly once`: once the segment is published the rows exist twice (segment + passive buffer) until the passive copy is
+        emptied. Selections hide that (rows are de-duplicated by id), aggregates do not. The flush task therefore must not be able
+        to finish the job while the passive buffer handed back by clear_and_complete still holds its rows: every path from
+        `Some(passive)` to the end of the task passes MemTable::flush on it. (Pruning only removes EMPTY buffers, so a skipped release
+        is never made up for.)"""
+        b = F.fn_exact(FLUSH_TASK) if F.has(FLUSH_TASK) else None
+        if b is None:
+            raise AnchorMissing("flush task body")
+        clear = one(b, r"SegmentLifecycleTracker::clear_and_complete$")
+        fl = [c for c in b.calls if not c.cleanup and c.nname.endswith("MemTable::flush")]
+        if not fl:
+            raise AnchorMissing("MemTable::flush of the passive buffer in the flush task")
+        some = variant_edge(b, clear, "Some")
+        exits = list(b.exits())
+        if not exits:
+            raise AnchorMissing("exit of the flush task")
+        inst.sites = [sp(b, clear.bb)] + [sp(b, c.bb) for c in fl]
+        seen = set(b.reach(0, src_edges=some, cut_blocks=[c.bb for c in fl]))
+        bad = []
+        if any(x in seen for x in exits):
+            bad.append(("passive-copy-not-released", "the flush task can finish without having emptied the passive buffer of the segment it just published (a path from Some(passive) to the end of the task avoids MemTable::flush): the rows stay readable twice and aggregates count them twice", sp(b, clear.bb)))
+        return bad
+    ctx.run("C03.k", "K2 CUT", "flush task", "the passive copy of a published segment is always emptied by the job that published it", k_)
 
     def d(inst):
         cg = CallGraph(F)
